@@ -7,6 +7,14 @@ ALL = ["C%02d" % i for i in range(1, 21)]
 
 # id -> (technique, level text, level note, design section)
 CLAIMED = {
+ "C04": ("property-based testing: generated setups x contents x one of 28 mutations of the raw transaction / witness scripts / arguments; oracle = byte equality with and signature verification against an independently built BOLT-3 reference transaction, differential between the semantic and raw entry points",
+         "Held-on-N-cases exploration of both counterparty-commitment entry points against reference transactions.",
+         "Trusted: LDK CommitmentTransaction/build_htlc_transaction builders fed directly from the generated setup, rust-bitcoin sighash, libsecp256k1.",
+         "C04"),
+ "C05": ("property-based testing with boundary-value and arithmetic-extreme generators; oracle = acceptance implies a reference predicate written from the property statement in 128-bit arithmetic",
+         "Held-on-N-cases exploration; the genuine defect found (implied fee rate truncated to 32 bits) was repaired by a fix: commit and kept as a regression replay.",
+         "Dust limit 330 sat and +2/kw rounding tolerance so that the oracle never demands more than the property; on-chain validator only in the unconfirmed state here.",
+         "C05"),
  "C12": ("property-based testing of VelocityControl against an exact approvals ledger (window-sum oracle in u128), plus stateful generation on a real node and on VelocityApprover with restarts from the store",
          "Held-on-N-sequences exploration; two genuine defects (controls reset by restart, fee control not persisted) were repaired by fix: commits and kept as regression replays.",
          "Non-decreasing timestamps; on-chain fees capped at 150 sat per request.",
